@@ -54,7 +54,7 @@ def regexes_for(rnd, mods):
     """(kind, pattern) drawn from the graph's own names."""
     names = [m for m in mods if m != "r"]
     m = rnd.choice(names)
-    k = rnd.choice(["anchored", "prefix", "alt", "class", "suffix", "with_subs", "nomatch", "leaf"])
+    k = rnd.choice(["anchored", "prefix", "alt", "class", "suffix", "with_subs", "nomatch", "leaf", "inner", "alt_ungrouped", "alt_ungrouped"])
     if k == "anchored":
         return k, "^" + re.escape(m) + "$"
     if k == "prefix":
@@ -72,6 +72,14 @@ def regexes_for(rnd, mods):
         return k, re.escape(m) + r"(\..*)?$"
     if k == "leaf":
         return k, r"r\.[a-z_]+\.[a-z_]+$"
+    if k == "inner":
+        # a fragment from inside a name: the documentation says regexes are matched from the start of the name
+        cut = rnd.randint(1, max(1, len(m) - 1))
+        return k, re.escape(m[cut:]) + rnd.choice(["", "$"])
+    if k == "alt_ungrouped":
+        m2 = rnd.choice(names)
+        cut = rnd.randint(1, max(1, len(m2) - 1))
+        return k, re.escape(m) + "$|" + re.escape(m2[cut:]) + rnd.choice(["", "$"])
     return k, "^" + re.escape(m) + "_nomatch_zz$"
 
 
@@ -91,6 +99,7 @@ def run_shard(spec, acc):
         law_partial(rnd, ev, mods, imps, acc)
         law_batch_subjects(rnd, ev, mods, imps, acc)
         law_batch_objects(rnd, ev, mods, imps, acc)
+        law_partial_list(rnd, ev, mods, imps, acc)
         if i % 97 == 0:
             acc.sample({"modules": mods, "imports": imps, "laws": "regex=expansion x3, partial-name=regex, multi-subject=conjunction, multi-object=conjunction"})
 
@@ -196,6 +205,48 @@ def law_partial(rnd, ev, mods, imps, acc, forced=None):
         acc.nontrivial({"m": mods, "i": imps, "p": pat, "v": [verb, d, exc, side]})
 
 
+def law_partial_list(rnd, ev, mods, imps, acc, forced=None):
+    """have_name_containing([p1, p2]): equals the union of the matches; if one of the patterns matches
+    nothing the rule must raise the no-match error (never a verdict)."""
+    from pytestarch import Rule
+
+    names = [m for m in mods if m != "r"]
+    a, b = rnd.choice(names), rnd.choice(names)
+    nothing = rnd.random() < 0.5
+    p1 = "*" + a.rsplit(".", 1)[-1]
+    p2 = "*no_such_module_zz" if nothing else b + "*"
+    verb, d, exc = _verb_dir(rnd)
+    other = _other(rnd, mods, "named")
+    side = rnd.choice(["subject", "object"])
+    if forced:
+        p1, p2, verb, d, exc, other, side = forced
+        other = tuple(other)
+    case = {"kind": "partial_list", "mods": mods, "imps": imps, "forced": [p1, p2, verb, d, exc, other, side]}
+    HUB.case = case
+    m1 = [x for x in mods if rglob.matches(p1, x)]
+    m2 = [x for x in mods if rglob.matches(p2, x)]
+
+    def mk(kind):
+        r = Rule().modules_that()
+        filt = (lambda r: r.have_name_containing([p1, p2])) if kind == "partial" else (lambda r: r.are_named(sorted(set(m1 + m2))))
+        r = filt(r) if side == "subject" else r.are_named(other[1])
+        r = getattr(getattr(r, verb)(), IMPORT_METHOD[(d, exc)])()
+        return filt(r) if side == "object" else r.are_named(other[1])
+
+    o1, _m, e1 = outcome(mk("partial"), ev, acc)
+    acc.count("law_partial_list_instances")
+    if not m1 or not m2:
+        acc.count("partial_list_with_unmatched_member")
+        if o1 in ("pass", "fail"):
+            HUB.violation("C11", "unmatched-partial-in-list-verdict", f"have_name_containing([{p1!r}, {p2!r}]): one pattern matches nothing but the rule produced the verdict '{o1}'", {"case": case})
+        return
+    o2, _m2, e2 = outcome(mk("named"), ev, acc)
+    if o1 != o2:
+        HUB.violation("C11", "partial-list-vs-expansion", f"have_name_containing([{p1!r}, {p2!r}]) gave {o1}, naming the matched modules gave {o2}", {"case": case, "matched": sorted(set(m1 + m2))})
+    if imps:
+        acc.nontrivial({"m": mods, "i": imps, "pl": case["forced"]})
+
+
 def law_batch_subjects(rnd, ev, mods, imps, acc, forced=None):
     names = [m for m in mods if m != "r"]
     verb, d, exc = _verb_dir(rnd)
@@ -258,12 +309,12 @@ def replay(case, acc):
     mods, imps = case["mods"], [tuple(i) for i in case["imps"]]
     ev = build(mods, imps)
     f = case["forced"]
-    {"regex": law_regex, "partial": law_partial, "batch_subjects": law_batch_subjects, "batch_objects": law_batch_objects}[case["kind"]](rnd, ev, mods, imps, acc, forced=f)
+    {"regex": law_regex, "partial": law_partial, "partial_list": law_partial_list, "batch_subjects": law_batch_subjects, "batch_objects": law_batch_objects}[case["kind"]](rnd, ev, mods, imps, acc, forced=f)
 
 
 def floors(acc, tier):
     why = []
-    for c, n in (("law_regex_pairs", 2000), ("law_partial_pairs", 500), ("law_batch_subject_instances", 500), ("law_batch_object_instances", 500), ("unmatched_regex_cases", 50)):
+    for c, n in (("law_regex_pairs", 2000), ("law_partial_pairs", 500), ("law_batch_subject_instances", 500), ("law_batch_object_instances", 500), ("unmatched_regex_cases", 50), ("partial_list_with_unmatched_member", 100)):
         if acc.counters[c] < n:
             why.append(f"{c}: only {acc.counters[c]}")
     return why
